@@ -730,6 +730,71 @@ mod tests {
         Ok(())
     }
 
+    /// What anyone passing a shred on can do: flip its (unauthenticated) data/coding type.
+    fn flip_type(
+        shred: &ValidatedShred,
+        pk: &crate::crypto::signature::PublicKey,
+    ) -> ValidatedShred {
+        let mut bytes = wincode::serialize(shred.as_shred()).unwrap();
+        // the enum tag of `ShredPayloadType` comes first (0 = data, 1 = coding)
+        bytes[0] ^= 1;
+        let flipped: crate::shredder::Shred = wincode::deserialize(&bytes).unwrap();
+        assert_ne!(flipped.is_data(), shred.is_data());
+        // neither the signature nor the Merkle path covers the type
+        ValidatedShred::try_new(flipped, None, pk).unwrap()
+    }
+
+    #[tokio::test]
+    async fn shred_of_wrong_type_ignored() -> Result<()> {
+        let sk = SecretKey::new(&mut rand::rng());
+        let pk = sk.to_pk();
+        let (tx, mut rx) = mpsc::channel(1000);
+        let mut blockstore = BlockstoreImpl::new(tx);
+        let slot = Slot::genesis().next();
+        let (hash, _tree, slices) = create_random_shredded_block(slot, 1, &sk);
+        let shreds = &slices[0];
+
+        // a data shred relabelled as coding arrives first, a coding shred relabelled as data later,
+        // from dissemination and from repair: all are ignored, nothing is stored or cached
+        let res = blockstore
+            .add_shred_from_dissemination(flip_type(&shreds[0], &pk))
+            .await;
+        assert_eq!(res, Err(AddShredError::WrongType));
+        assert!(
+            blockstore
+                .cached_commitment(slot, SliceIndex::first())
+                .is_none()
+        );
+        blockstore
+            .add_shred_from_dissemination(shreds[1].clone())
+            .await?;
+        for i in [0, DATA_SHREDS - 1, DATA_SHREDS, TOTAL_SHREDS - 1] {
+            let res = blockstore
+                .add_shred_from_dissemination(flip_type(&shreds[i], &pk))
+                .await;
+            assert_eq!(res, Err(AddShredError::WrongType));
+            let res = blockstore
+                .add_shred_from_repair(hash.clone(), flip_type(&shreds[i], &pk))
+                .await;
+            assert_eq!(res, Err(AddShredError::WrongType));
+        }
+        assert_eq!(blockstore.stored_shreds_for_slot(slot), 1);
+
+        // the genuine shreds at those indices are still accepted and the block completes,
+        // the (correct) leader is never flagged
+        let mut block_info = None;
+        for shred in shreds.iter().take(DATA_SHREDS) {
+            if let Some(info) = add_shred_ignore_duplicate(&mut blockstore, shred.clone()).await? {
+                block_info = Some(info);
+            }
+        }
+        assert_eq!(block_info.map(|info| info.hash), Some(hash.clone()));
+        assert!(blockstore.get_block(&(slot, hash)).is_some());
+        assert_eq!(count_invalid_block_events(&mut rx, slot), 0);
+
+        Ok(())
+    }
+
     fn count_invalid_block_events(rx: &mut mpsc::Receiver<BlockstoreEvent>, slot: Slot) -> usize {
         let mut count = 0;
         while let Ok(event) = rx.try_recv() {
